@@ -1000,4 +1000,103 @@ fn harden(rng: &mut Rng, thorough: bool, emit: &mut dyn FnMut(String)) {
             emit_inv(emit, "f32", n, n, &v.iter().map(|x| *x as f32 as f64).collect::<Vec<f64>>());
         }
     }
+    threshold_scales(rng, thorough, emit);
+}
+
+/// TWO RARE THINGS AT ONCE (third seeded round): well-conditioned matrices that FORCE ROW EXCHANGES - permutation
+/// matrices (cyclic shifts: `P != P^T`), signed / scaled permutations, permutations plus small-integer or real noise,
+/// small-integer matrices with zeros on the diagonal, the dense `[[1/2, 4], [1, 1/4]]` kind - times EVERY power of two
+/// 2^-60 .. 2^60, so that the largest entry of a pivot column is exactly 2^-52 (= EPSILON, the refusal threshold),
+/// 2^-53, 2^-51, ... at the moment a row exchange is due; and through `inv2` the same for the inverse (A = 2^52 P has the
+/// inverse 2^-52 P^T, whose inversion meets pivots exactly EPSILON).  Multiplication by a power of two is exact, so the
+/// condition number does not change with the scale.  Also one ulp on either side of the threshold.
+fn threshold_scales(rng: &mut Rng, thorough: bool, emit: &mut dyn FnMut(String)) {
+    let base = |rng: &mut Rng, kind: usize, n: usize| -> Vec<f64> {
+        let tau = if kind % 2 == 0 {
+            let shift = 1 + rng.below(n as u64 - 1) as usize;
+            (0..n).map(|i| (i + shift) % n).collect::<Vec<usize>>()
+        } else {
+            let mut t = shuffle(rng, n);
+            if (0..n).all(|i| t[i] == i) {
+                t.swap(0, n - 1);
+            }
+            t
+        };
+        match kind % 6 {
+            // a permutation matrix
+            0 => (0..n * n).map(|t| if tau[t / n] == t % n { 1.0 } else { 0.0 }).collect(),
+            // a signed permutation with entries 1, 2, 1/2, 3/2
+            1 => (0..n * n).map(|t| if tau[t / n] == t % n { *rng.pick(&[1.0, -1.0, 2.0, -0.5, 1.5]) } else { 0.0 }).collect(),
+            // permutation (entries 2 or 4) plus small-integer noise: exact elimination for most of them
+            2 => (0..n * n)
+                .map(|t| if tau[t / n] == t % n { *rng.pick(&[2.0, -2.0, 4.0]) } else if rng.chance(1, 3) { rng.range(-1, 1) as f64 } else { 0.0 })
+                .collect(),
+            // permutation plus real noise
+            3 => {
+                let noise = *rng.pick(&[0.0078125, 0.125, 0.25]);
+                perm_matrix(rng, n, &tau, noise)
+            }
+            // small integers with a zero diagonal where the permutation is not the identity
+            4 => {
+                let mut v: Vec<f64> = (0..n * n).map(|_| rng.range(-1, 1) as f64).collect();
+                for i in 0..n {
+                    v[i * n + i] = 0.0;
+                }
+                for i in 0..n {
+                    v[i * n + tau[i]] = (n as f64) * sgn(rng);
+                }
+                v
+            }
+            // dyadic, dense: every column has its largest entry off the diagonal
+            _ => {
+                let mut v: Vec<f64> = (0..n * n).map(|_| rng.dyadic(4, 3)).collect();
+                for i in 0..n {
+                    v[i * n + tau[i]] = *rng.pick(&[4.0, -4.0, 8.0]);
+                }
+                v
+            }
+        }
+    };
+    let scaled = |v: &[f64], e: i64| -> Vec<f64> { v.iter().map(|x| x * p2(e)).collect() };
+    let reps = if thorough { 8 } else { 1 };
+    let mut k = 0usize;
+    for _ in 0..reps {
+        for e in -60..=60i64 {
+            let near = [-54, -53, -52, -51, -50, 50, 51, 52, 53, 54].contains(&e);
+            let count = if near { 18 } else { 5 };
+            for c in 0..count {
+                let n = if c % 3 == 0 { 2 + rng.below(2) as usize } else { 2 + rng.below(7) as usize };
+                let v = scaled(&base(rng, k, n), e);
+                k += 1;
+                match c % 3 {
+                    0 | 1 => emit(format!("inv2 {}", req_mat_f(n, n, &v))),
+                    _ => emit_inv(emit, if is_f32(&v) && k % 2 == 0 { "f32" } else { "f64" }, n, n, &v),
+                }
+            }
+        }
+    }
+    // every cyclic shift and the transposition of 2..5 rows at the threshold exponents, both directions
+    for e in [-53i64, -52, -51, 51, 52, 53] {
+        for n in 2..=5usize {
+            for shift in 1..n {
+                let v: Vec<f64> = (0..n * n).map(|t| if (t / n + shift) % n == t % n { p2(e) } else { 0.0 }).collect();
+                emit(format!("inv2 {}", req_mat_f(n, n, &v)));
+                emit_inv(emit, if (n + shift) % 2 == 0 { "f32" } else { "f64" }, n, n, &v);
+            }
+        }
+        // dense, well conditioned, every pivot found below the diagonal
+        let v = [0.5 * p2(e), 4.0 * p2(e), p2(e), 0.25 * p2(e)];
+        emit(format!("inv2 {}", req_mat_f(2, 2, &v)));
+        let w = [0.0, 1.0 * p2(e), 0.5 * p2(e), 2.0 * p2(e), 0.0, p2(e), p2(e), p2(e), 4.0 * p2(e)];
+        emit(format!("inv2 {}", req_mat_f(3, 3, &w)));
+    }
+    // one ulp on either side of the threshold (below: refused by the documented rule; compared with the model)
+    let e = f64::EPSILON;
+    for x in [e * (1.0 + e), e * (1.0 - e / 2.0), -e * (1.0 + e), 2.0 * e, e / 2.0, 1.0 / e, (1.0 / e) * (1.0 + e), (1.0 / e) * (1.0 - e / 2.0)] {
+        for n in 2..=4usize {
+            let v: Vec<f64> = (0..n * n).map(|t| if (t / n + 1) % n == t % n { x } else { 0.0 }).collect();
+            emit(format!("inv2 {}", req_mat_f(n, n, &v)));
+        }
+        emit_inv(emit, "f64", 2, 2, &[x / 2.0, x, x, 0.0]);
+    }
 }
